@@ -186,4 +186,39 @@ theorem boxWeight3_nonneg (w h : Nat) (ws : Array Int) (hnn : ∀ x ∈ ws.toLis
   exact lsum_nonneg _ _ fun z _ => lsum_nonneg _ _ fun y _ => lsum_nonneg _ _ fun x _ =>
     lsum_getD_nonneg ws hnn _
 
+/-! ## Small helpers for the property file -/
+
+theorem sum_nonneg_of (ws : List Int) (hnn : ∀ w ∈ ws, 0 ≤ w) : 0 ≤ ws.sum := by
+  induction ws with
+  | nil => simp
+  | cons a l ih =>
+    rw [List.sum_cons]
+    have := hnn a List.mem_cons_self
+    have := ih (fun b hb => hnn b (List.mem_cons_of_mem _ hb))
+    omega
+
+theorem rcb2_unfold (cfg : Cfg) (T : Nat) (bracket : Int → Option (Int × Int)) (w h : Nat) (ws : Array Int)
+    (plen iter : Nat) (ids : List Nat) (hr : rcb2 cfg T bracket w h ws plen iter = .ok ids) :
+    ∃ t, recurse { D := 2, cfg, T, bracket, aw := axisWeights2 w ws } iter (wholeGrid (vec2 (w, h)))
+        ws.toList.sum 1 = .ok t ∧
+      ids = (List.range plen).map fun i => partOf 2 t (vec2 (positionOf2 w i)) 1 := by
+  simp only [rcb2] at hr
+  split at hr
+  · cases hr
+  · next t ht =>
+    simp only [Except.ok.injEq] at hr
+    exact ⟨t, ht, hr.symm⟩
+
+theorem rcb3_unfold (cfg : Cfg) (T : Nat) (bracket : Int → Option (Int × Int)) (w h d : Nat) (ws : Array Int)
+    (plen iter : Nat) (ids : List Nat) (hr : rcb3 cfg T bracket w h d ws plen iter = .ok ids) :
+    ∃ t, recurse { D := 3, cfg, T, bracket, aw := axisWeights3 w h ws } iter (wholeGrid (vec3 (w, h, d)))
+        ws.toList.sum 1 = .ok t ∧
+      ids = (List.range plen).map fun i => partOf 3 t (vec3 (positionOf3 w h i)) 1 := by
+  simp only [rcb3] at hr
+  split at hr
+  · cases hr
+  · next t ht =>
+    simp only [Except.ok.injEq] at hr
+    exact ⟨t, ht, hr.symm⟩
+
 end Coupe.GridRcb
